@@ -538,6 +538,22 @@ func (e *c15Conc) evalInt(v ssa.Value, fr *c15Frame, env map[*ssa.Phi]c15Val) (i
 			case 2:
 				return e.S, true
 			}
+		case "":
+			// a repository helper returning one integer (hop count of a path / seen-by list)
+			if cal.Static != nil && cal.Static.Blocks != nil && kit.IsRepoPkg(cal.Pkg) && e.depth < 3 && !x.Call.IsInvoke() &&
+				cal.Static.Signature.Results().Len() == 1 {
+				if b, isB := cal.Static.Signature.Results().At(0).Type().Underlying().(*types.Basic); isB && b.Info()&types.IsInteger != 0 {
+					nf := e.bindFrame(cal.Static, x, fr, env)
+					e.depth++
+					_, _, ints, unknown := e.runAll(nf)
+					e.depth--
+					if !unknown && len(ints) == 1 {
+						for k := range ints {
+							return k, true
+						}
+					}
+				}
+			}
 		case "max", "min":
 			var res int64
 			for i, a := range x.Call.Args {
@@ -584,19 +600,7 @@ func (e *c15Conc) evalBool(v ssa.Value, fr *c15Frame, env map[*ssa.Phi]c15Val) (
 		if rs.Len() != 1 || !types.Identical(rs.At(0).Type().Underlying(), types.Typ[types.Bool]) {
 			return false, false
 		}
-		// bind the callee's parameters
-		nf := &c15Frame{fn: cal.Static, ints: map[*ssa.Parameter]int64{}, lists: map[*ssa.Parameter]int{}}
-		for i, prm := range cal.Static.Params {
-			if i >= len(x.Call.Args) {
-				break
-			}
-			a := x.Call.Args[i]
-			if k, ok := e.evalInt(a, fr, env); ok {
-				nf.ints[prm] = k
-			} else if cl := e.listClass(a, fr); cl != 0 {
-				nf.lists[prm] = cl
-			}
-		}
+		nf := e.bindFrame(cal.Static, x, fr, env)
 		e.depth++
 		_, rets := e.run(nf)
 		e.depth--
@@ -609,14 +613,42 @@ func (e *c15Conc) evalBool(v ssa.Value, fr *c15Frame, env map[*ssa.Phi]c15Val) (
 	return false, false
 }
 
+// bindFrame binds the callee's parameters to what the call's arguments evaluate to.
+func (e *c15Conc) bindFrame(callee *ssa.Function, x *ssa.Call, fr *c15Frame, env map[*ssa.Phi]c15Val) *c15Frame {
+	nf := &c15Frame{fn: callee, ints: map[*ssa.Parameter]int64{}, lists: map[*ssa.Parameter]int{}}
+	for i, prm := range callee.Params {
+		if i >= len(x.Call.Args) {
+			break
+		}
+		a := x.Call.Args[i]
+		if b, isB := a.Type().Underlying().(*types.Basic); isB && b.Info()&types.IsInteger != 0 {
+			if k, ok := e.evalInt(a, fr, env); ok {
+				nf.ints[prm] = k
+			}
+		} else if cl := e.listClass(a, fr); cl != 0 {
+			nf.lists[prm] = cl
+		}
+	}
+	return nf
+}
+
 // run explores fn from its entry; returns the reachable blocks and, for bool functions, the set
 // of values it can return (an undecidable return value contributes both).
 func (e *c15Conc) run(fr *c15Frame) (map[*ssa.BasicBlock]bool, map[bool]bool) {
+	reached, rets, _, _ := e.runAll(fr)
+	return reached, rets
+}
+
+// runAll is run that also collects the integer values a single-result int function can return
+// (intUnknown: some reachable return could not be evaluated).
+func (e *c15Conc) runAll(fr *c15Frame) (map[*ssa.BasicBlock]bool, map[bool]bool, map[int64]bool, bool) {
 	reached := map[*ssa.BasicBlock]bool{}
 	rets := map[bool]bool{}
+	intRets := map[int64]bool{}
+	intUnknown := false
 	fn := fr.fn
 	if len(fn.Blocks) == 0 {
-		return reached, rets
+		return reached, rets, intRets, true
 	}
 	type state struct {
 		b   *ssa.BasicBlock
@@ -703,7 +735,14 @@ func (e *c15Conc) run(fr *c15Frame) (map[*ssa.BasicBlock]bool, map[bool]bool) {
 			}
 		case *ssa.Return:
 			if st.b != fn.Recover && len(last.Results) == 1 {
-				if v, known := e.evalBool(kit.ReturnResult(last, 0), fr, st.env); known {
+				rv := kit.ReturnResult(last, 0)
+				if b, isB := rv.Type().Underlying().(*types.Basic); isB && b.Info()&types.IsInteger != 0 {
+					if k, known := e.evalInt(rv, fr, st.env); known {
+						intRets[k] = true
+					} else {
+						intUnknown = true
+					}
+				} else if v, known := e.evalBool(rv, fr, st.env); known {
 					rets[v] = true
 				} else {
 					rets[true], rets[false] = true, true
@@ -715,7 +754,7 @@ func (e *c15Conc) run(fr *c15Frame) (map[*ssa.BasicBlock]bool, map[bool]bool) {
 			}
 		}
 	}
-	return reached, rets
+	return reached, rets, intRets, intUnknown
 }
 
 // c15HopRelated: the expression involves a list length or the limit (loop counters and other
@@ -852,13 +891,13 @@ func runC15(p *kit.Program, r *kit.Report) {
 	}
 	r.Count("concrete_scenarios_evaluated", nScen)
 	for _, s := range sinks {
-		d, isBad := bad[s.name]
+		// the verdict is the concrete evaluation's (it covers the flooded scenario the symbolic pass
+		// of round 1 evaluated, and follows helpers, locals, min/max and swapped operands exactly);
+		// the symbolic pass is kept as a measured counter only
+		_ = bad
 		why, isBad2 := badWhy[s.name]
-		msg := fmt.Sprintf("reachable for an announcement that has travelled limit+%d hops: routes are stored / forwarded beyond routing.max_hops", d)
-		if !isBad && isBad2 {
-			msg = "reachable for " + why + ": the hop count compared with the limit is not one that survives a replay (it must not be smaller than the path length), so routes are stored / forwarded beyond routing.max_hops"
-		}
-		r.Decide(!isBad && !isBad2, "C15.R2", hn+" "+s.name+" within hop limit", p.Pos(s.in.Pos()),
+		msg := "reachable for " + why + ": routes are stored / forwarded beyond routing.max_hops (the hop count compared with the limit must not be smaller than the path length, which is what survives a replay)"
+		r.Decide(!isBad2, "C15.R2", hn+" "+s.name+" within hop limit", p.Pos(s.in.Pos()),
 			"unreachable for an announcement that is over the configured hop limit (flooded or replayed)", msg)
 	}
 
